@@ -89,6 +89,9 @@ func (h *c09H) hn(bh restic.BlobHandle) int {
 func (h *c09H) fileData(kind int) []byte {
 	sizes := []int{0, 1, 100, 4096, 30000, 70000, 200000, 700000}
 	n := sizes[h.rng.intn(len(sizes))]
+	if n > 100000 && !h.c.thorough() {
+		n = 5000 + h.rng.intn(40000)
+	}
 	if n > 100000 && h.rng.chance(60) {
 		n = 5000 + h.rng.intn(40000)
 	}
@@ -727,7 +730,9 @@ func (h *c09H) runScenario(kind string, o c09Opt, maxPrefixes int) error {
 		for k := 1; k < n; k++ {
 			if mods[k].Op != mods[k-1].Op || mods[k].Type != mods[k-1].Type {
 				keep[k] = true
-				keep[k-1] = true
+				if k+1 < n {
+					keep[k+1] = true // one op into the new phase
+				}
 			}
 		}
 		for len(keep) < maxPrefixes {
@@ -772,7 +777,7 @@ func (h *c09H) runScenario(kind string, o c09Opt, maxPrefixes int) error {
 		h.clearLocks()
 		c09T["prune-rerun"] += time.Since(t0).Seconds()
 		t0 = time.Now()
-		rr := rerr == nil && h.checkOK() && h.restoreOK()
+		rr := rerr == nil && h.checkOK() && (!c.thorough() && k%2 == 1 || h.restoreOK())
 		c09T["after-rerun"] += time.Since(t0).Seconds()
 		last := "-"
 		if len(cutMods) > 0 {
@@ -874,8 +879,23 @@ func (h *c09H) build(kind string) error {
 	if kind == "dup-missing" {
 		return h.buildDupMissing()
 	}
+	if kind == "single-pack" {
+		// after the prune exactly one pack (the tree pack of an empty-directory snapshot) survives, so
+		// the rewritten index holds a single pack
+		s1, err := h.backup("")
+		if err != nil {
+			return err
+		}
+		if _, err := h.backupFiles(map[string][]byte{}); err != nil {
+			return err
+		}
+		return h.forget(s1)
+	}
 	prev := ""
 	nb := 2 + h.rng.intn(3)
+	if !h.c.thorough() {
+		nb = 2
+	}
 	for i := 0; i < nb; i++ {
 		var extra []string
 		if h.rng.chance(25) {
@@ -886,7 +906,7 @@ func (h *c09H) build(kind string) error {
 		if err != nil {
 			return err
 		}
-		if kind == "dup" && i == 0 {
+		if (kind == "dup" || kind == "dup-unindexed") && i == 0 {
 			// same content again while its index is hidden: every blob gets a second copy
 			back := h.hideNewIndexes(before)
 			if _, err := h.backup(sn.src); err != nil {
@@ -911,7 +931,7 @@ func (h *c09H) build(kind string) error {
 		}
 	}
 	switch kind {
-	case "unindexed":
+	case "unindexed", "dup-unindexed":
 		before := h.idxFiles()
 		sn, err := h.backup("")
 		if err != nil {
@@ -954,9 +974,9 @@ func (h *c09H) build(kind string) error {
 
 func c09Histories(c *vctx) error {
 	repository.VerifC09SetLockWait(time.Millisecond)
-	kinds := []string{"plain", "dup", "unindexed", "missing-unneeded", "abort-index", "dup-missing", "plain", "dup"}
+	kinds := []string{"plain", "dup", "unindexed", "missing-unneeded", "abort-index", "dup-missing", "single-pack", "dup-unindexed", "plain", "dup"}
 	nh := c.n(3, 40)
-	maxPref := 9
+	maxPref := 5
 	if c.thorough() {
 		maxPref = 0
 	}
@@ -965,7 +985,7 @@ func c09Histories(c *vctx) error {
 		rng := c.rng.fork()
 		kind := kinds[i%len(kinds)]
 		if !c.thorough() {
-			kind = []string{"dup", "unindexed", "dup-missing"}[i%3]
+			kind = []string{"dup-unindexed", "dup-missing", "single-pack"}[i%3]
 		}
 		h := c09NewH(c, fmt.Sprintf("h%d", i), rng)
 		if err := h.build(kind); err != nil {
@@ -973,9 +993,9 @@ func c09Histories(c *vctx) error {
 		}
 		oi := -1
 		if i < 3 {
-			oi = []int{0, 3, 0}[i]
+			oi = []int{0, 0, 0}[i]
 		}
-		if kind == "dup-missing" {
+		if kind == "dup-missing" || kind == "single-pack" {
 			oi = 0
 		}
 		o := c09PickOpt(rng, oi)
